@@ -171,9 +171,9 @@ def bitEval (case : Json) : Json :=
     Json.mkObj [("results", Json.arr ((getArr (field case "inputs")).map fun args =>
       let vals := (getArr args).map valFromJson
       let benv : Option BEnv := (d.params.zip vals).foldl (fun acc ((x, t), v) =>
-        match acc, STy.ofTy t with
-        | some e, some st => some ((x, st, v.encode t) :: e)
-        | _, _ => none) (some [])
+        match acc with
+        | some e => some ((x, VTy.ofTy t, v.encode t) :: e)
+        | none => none) (some [])
       match benv with
       | none => Json.mkObj [("outside", true)]
       | some benv =>
